@@ -58,7 +58,7 @@ CHECKS = {
  "C13": ("exploration",
          "model-based checking of every window-edge block of generated long histories against an independent reference ledger, plus adversarial spend probes of expired outputs",
          "For every block that enters the longest chain beyond height gp+1 (generated histories with several window wraps, dust, fees, treasury payout multiplier and cap, forks across the edge) the set U of still-unspent outputs of the expiring block is taken from the independent replay; rebroadcast transactions must map one-to-one into U, keep the owner, carry value+payout-fee, the payouts must equal the treasury debit, and rebroadcast fees plus the value of non-rebroadcast members of U must equal total_fees_atr; real signed spends of expired outputs are then offered to the pool and must be refused.",
-         "NFT-style bound triples are not generated. 'No longer spendable' is judged operationally (a signed spend is refused), not by absence from the utxoset map.",
+         "NFT groups are minted (one generated transaction in ten) and rebroadcast, also a second time; a group's payload must come back together with its bound slips. NFT transfers are not generated. 'No longer spendable' is judged operationally (a signed spend is refused), not by absence from the utxoset map.",
          "DESIGN.md §3 C13"),
  "C14": ("exploration",
          "stateful model-based testing: generated operation sequences (vec of ops + interpreter, shrinking as one value) over pool, producer, peer blocks and reorganisations, invariants after every step and a terminal spendability probe, judged by the independent reference ledger",
@@ -72,12 +72,12 @@ CHECKS = {
          "DESIGN.md §3 C19"),
  "C18": ("exploration",
          "exhaustive enumeration of all 2^n touch patterns (n <= 8 quick, <= 11 thorough) plus property-based random blocks/key lists; projection and commitment-recomputation oracles, in memory and across the wire format",
-         "For every pattern of which transactions of a block touch the client's key list, the lite block must keep id/hash/signature/header, contain every touching transaction unchanged and in order, account for every omitted one, allow the header's merkle root to be recomputed from its transactions, and keep all of that after serialisation. Placeholder merging depends on the position pattern, which is enumerated completely for small n.",
+         "For every pattern of which transactions of a block touch the client's key list, the lite block must keep id/hash/signature/header, contain every touching transaction unchanged and in order, account for every omitted one, allow the header's merkle root to be recomputed from its transactions (a panic of that recomputation is a violation), and keep all of that after serialisation. Placeholder merging depends on the position pattern, which is enumerated completely for small n.",
          "Open known finding F27: whenever two adjacent omitted transactions are merged the commitment is not recomputable (keyed by merged/unmerged so that a regression of the unmerged case is still reported). The HTTP route in saito-rust that serves lite blocks is not driven; the same Block::generate_lite_block + serialize_for_net calls are.",
          "DESIGN.md §3 C18"),
  "C16": ("exploration",
          "stateful model-based testing through the routing layer with an I/O-boundary monitor: exhaustive operation sequences to depth 4 (quick) / 5 (thorough) over a small universe plus proptest-generated sequences to length 60, each run to quiescence",
-         "The scheduler is only driven by what the node really receives (header-hash announcements from authenticated peers, timer ticks, fetched blocks, fetch failures, blocks arriving by another route) and only observed where its decisions leave the node (fetch_block_from_peer). A harness-side model of the fetches in flight checks the per-peer bound, height order and no-skip within each selection round, no double request, completeness at quiescence and the retry bound (1200 rounds with an always-failing block).",
+         "The scheduler is only driven by what the node really receives (header-hash announcements from authenticated peers, timer ticks, fetched blocks, fetch failures, blocks arriving by another route) and only observed where its decisions leave the node (fetch_block_from_peer). A harness-side model of the fetches in flight checks the per-peer bound, height order and no-skip within each selection round, no double request, completeness at quiescence and the retry bound (1800 rounds with an always-failing block that the peer announces again at generated rounds, optionally announced by a second peer too; 502 requests per peer).",
          "Ordering is asserted among never-failed entries (a failed entry re-enters one round later by design). Open known findings F28/F28b (the scheduler forgets outstanding fetches when the block arrives from elsewhere) are keyed by root cause: an excess or double request that is not explained by such a forgotten fetch is still a violation.",
          "DESIGN.md §3 C16"),
  "C17": ("exploration",
@@ -92,12 +92,12 @@ CHECKS = {
          "DESIGN.md §3 C15"),
  "C11": ("exploration",
          "property-based robustness testing of a whole node (real routing, verification, consensus, mining threads) under generated sequences of hostile and honest events, with a panic/step-bound oracle per handler invocation and a differential oracle against a twin node that only sees the honest sub-sequence",
-         "Sequences of 3..40 events mix complete validly signed handshakes on new connections (under the hostile peer's already connected key or a fresh key), decodable messages of every tag from an authenticated and an unauthenticated hostile peer (generated by the C09 value generators), key-list floods, bogus block announcements answered with garbage/truncated/empty/mismatching/edited blocks, catalogue transactions, raw garbage and connection events with honest transactions and blocks, timer ticks and channel pumping. Every handler invocation must return; block processing must stay under the step bound; after every event the tip, and at the end utxoset, honest pool content and honest peer status, must equal those of the honest-only twin.",
+         "Sequences of 3..40 events mix complete validly signed handshakes on new connections (under the hostile peer's already connected key or a fresh key), decodable messages of every tag from an authenticated and an unauthenticated hostile peer (generated by the C09 value generators), key-list floods, bogus block announcements answered with garbage/truncated/empty/mismatching/edited blocks, catalogue transactions, shaped transactions (correctly signed, any transaction type x 0..5 inputs x 0..5 outputs x any slip types, as messages and inside fetched blocks), raw garbage and connection events with honest transactions and blocks, timer ticks and channel pumping. Every handler invocation must return; block processing must stay under the step bound; after every event the tip, and at the end utxoset, honest pool content and honest peer status, must equal those of the honest-only twin.",
          "A handler that never returns outside the wind/unwind loop can only be caught by the harness watchdog (reported as inconclusive, exit 2); the per-event tip comparison catches the known way into such a loop (corrupted chain index) before it is entered. Rate limiters other than the key-list one are not exhausted by these sequence lengths.",
          "DESIGN.md §3 C11"),
  "C12": ("fault_enumeration",
          "crash-point enumeration over the journal of storage operations recorded by an in-memory InterfaceIO (prefix x {complete, absent, torn at 5 byte-class boundaries and at/inside the first three transaction boundaries}), each followed by a real restart through ConsensusThread::on_init and a differential/replay oracle; histories generated with proptest",
-         "For generated histories with pruning, rebroadcast, reorganisations and stored-but-never-validated invalid side blocks the clean restart must reproduce tip and in-window spendable set; for every enumerated crash point the restarted node must come up without panicking on a tip whose file was completely on disk, with index/flags describing the tip's ancestors, the in-window spendable set equal to the independent replay of that chain, supply conserved when the whole window is held, and must accept a valid next block.",
+         "For generated histories with pruning, rebroadcast, reorganisations and stored-but-never-validated invalid side blocks the clean restart must reproduce tip and in-window spendable set; for every enumerated crash point the restarted node must come up without panicking on a tip whose file was completely on disk, with index/flags describing the tip's ancestors, the in-window spendable set equal to the independent replay of that chain, supply conserved when the whole window is held, and must accept a valid next block; after a second block it is shut down cleanly and restarted from its own files, and must not come back on an ancestor of that tip.",
          "The tearing model (prefix of the new content under the final name; removal atomic) is an assumption taken from RustIOHandler::write_value; the native handler is not executed. Quick tier strides over journal prefixes outside reorganisation/pruning steps; thorough tier takes every prefix. Histories avoid side chains whose fork point has been purged (known finding F10). Open findings F37 (unvalidated stored side block adopted at restart once the genesis block is purged) and F41 (a competing valid branch wins by file order) are keyed by cause.",
          "DESIGN.md §3 C12"),
  "C20": ("exploration",
